@@ -203,8 +203,13 @@ def run(ctx: core.Ctx):
     if not q:
         s = ctx.tlc("MC_Settings", write_cfg("Sim_Settings", base.format(nk=7, d=4, m=10, e="TRUE", ra="FALSE", df="no")
                                              + "INVARIANT EmitInv\nPROPERTY PropExitRestores\nCHECK_DEADLOCK FALSE\n"),
-                    workers=1, simulate="num=3000", depth=12, seed=ctx.seed % 100000, timeout=3000)
-        behs += [(b, 7) for b in s.emitted]
+                    workers=1, simulate="num=400", depth=12, seed=ctx.seed % 100000, timeout=3000)
+        # (the simulator evaluates the emitting invariant on every successor it generates before it picks one: each trace yields
+        # thousands of behaviours that differ in their last step only - a seeded sample of them is replayed)
+        sim = s.emitted if len(s.emitted) <= 30000 else random.Random(ctx.seed).sample(s.emitted, 30000)
+        ctx.extra["behaviours_simulated_generated"] = len(s.emitted)
+        behs += [(b, 7) for b in sim]
+        del s
     if not behs:
         raise MachineryError("no behaviours generated")
     pal = palette(fl)
@@ -229,6 +234,9 @@ def run(ctx: core.Ctx):
             ctx.case(("beh", bi), any(s["act"] in ("Exit", "Raise") for s in beh["steps"]))
             if bi % 9000 == 11:
                 ctx.sample({"behaviour": beh, "keymap": keymap})
+            if bi % 5000 == 4999 and os.environ.get("VERIF_DEBUG_RSS"):
+                import resource
+                print(f"[C20] behaviour {bi}: max rss {resource.getrusage(resource.RUSAGE_SELF).ru_maxrss // 1000} MB, events {len(tracer.events())}", flush=True)
             if bi % 5000 == 4999:       # the recorded events are cut into traces as we go (every behaviour closes its contexts): memory stays bounded
                 chunk = [dict(e) for e in tracer.events() if e["act"].startswith("settings.")]
                 kept_items += split_traces(chunk, f"replay{bi}", limit=max(40, (400 if q else 4000) * 5000 // max(len(behs), 1) + 1), rng=rng)
